@@ -18,11 +18,17 @@ Local Open Scope N_scope.
 Record step := { s_force : bool; s_t : nat; s_ran : bool; s_tag : N; s_ids : N; s_tso : N; s_cid : N; s_cts : N; s_resp : N }.
 Record crash := { k_ids : N; k_tso : N; k_reqs : list req; k_ids0 : N; k_tso0 : N;
                   k_firsts : list N; k_cid : N; k_cts : N }.
-Record case := { c_ids : N; c_tso : N; c_reqs : list req; c_steps : list step;
+(** restart through the real [nokv pd] command: responses of the first incarnation, checkpoint file at
+    the restart, the start flags in effect (defaults 1/1 or passed explicitly), the start values the command
+    printed, the first id and timestamp it handed out *)
+Record boot := { b_seen : list iv; b_cid : N; b_cts : N; b_fid : N; b_fts : N;
+                 b_sid : N; b_sts : N; b_first_id : N; b_first_ts : N }.
+
+Record case := { c_ids : N; c_tso : N; c_reqs : list req; c_fail : list bool; c_steps : list step; c_boot : option boot;
                  c_images : list (nat * N * N); c_crash : crash }.
 
 Definition pc_tag (p : pc) : N :=
-  match p with PReserve => 0 | PLock _ => 1 | PLoadId _ => 2 | PLoadTs _ _ => 3 | PSave _ _ _ => 4 | PDone _ => 5 end.
+  match p with PReserve => 0 | PLock _ => 1 | PLoadId _ => 2 | PLoadTs _ _ => 3 | PSave _ _ _ => 4 | PDone _ => 5 | PFail _ => 7 end.
 Definition pc_resp (p : pc) : N := match p with PDone f => f | _ => 0 end.
 
 Definition is_some {A} (o : option A) : bool := match o with Some _ => true | None => false end.
@@ -32,6 +38,9 @@ Definition is_some {A} (o : option A) : bool := match o with Some _ => true | No
     where it is, disabled.  [waiting] remembers that thread: as soon as a later step releases the mutex,
     the real thread acquires it and runs on to its next yield point, i.e. the model performs [Th w]
     right after that step.  [cks] collects the checkpoint after every step (for the crash images). *)
+Section Fail.
+Variable failing : nat -> bool.
+
 Fixpoint agree (g : gstate) (waiting : option nat) (steps : list step) : bool * gstate * list (N * N) :=
   match steps with
   | [] => (true, g, [])
@@ -50,11 +59,11 @@ Fixpoint agree (g : gstate) (waiting : option nat) (steps : list step) : bool * 
           end
         else if is_waiting then (false, g, waiting, true)
         else
-          let o := tstep true g (Th t) in
+          let o := tstep true failing g (Th t) in
           let g1 := match o with Some g1 => g1 | None => g end in
           match waiting with
           | Some w => if g_mu g1 then (is_some o, g1, waiting, false)
-                      else match tstep true g1 (Th w) with
+                      else match tstep true failing g1 (Th w) with
                            | Some g2 => (is_some o, g2, None, false)
                            | None => (is_some o, g1, waiting, false)
                            end
@@ -70,11 +79,13 @@ Fixpoint agree (g : gstate) (waiting : option nat) (steps : list step) : bool * 
       let '(ok', gf, cks) := agree g' waiting' r in (ok && ok', gf, (g_ck_id g', g_ck_ts g') :: cks)
   end.
 
+End Fail.
+
 (** run thread [t] alone to completion *)
 Fixpoint finish (fuel : nat) (g : gstate) (t : nat) : gstate :=
   match fuel with
   | O => g
-  | S f => match tstep true g (Th t) with Some g' => finish f g' t | None => g end
+  | S f => match tstep true (fun _ => false) g (Th t) with Some g' => finish f g' t | None => g end
   end.
 
 Fixpoint agree_restart (g : gstate) (t : nat) (firsts : list N) : bool * gstate :=
@@ -115,11 +126,22 @@ Definition image_model_ok (cks : list (N * N)) (im : nat * N * N) : bool :=
 Definition image_spec_ok (tr : list ostep) (im : nat * N * N) : bool :=
   let '(k, id0, ts0) := im in covered_b id0 ts0 (seen_after [] (firstn k tr)).
 
+(** model: the command starts the allocators at [resolve flag checkpoint] (the [Crash] label of the model) *)
+Definition boot_model_ok (b : boot) : bool :=
+  let si := resolve (b_fid b) (b_cid b) in
+  let st := resolve (b_fts b) (b_cts b) in
+  (b_sid b =? si) && (b_sts b =? st) &&
+  (b_first_id b =? counter_of_start si + 1) && (b_first_ts b =? counter_of_start st + 1).
+(** oracle: what the restarted command hands out lies above everything handed out before *)
+Definition boot_spec_ok (b : boot) : bool :=
+  restart_ok_b (b_seen b) [(KId, b_first_id b, 1)] && restart_ok_b (b_seen b) [(KTs, b_first_ts b, 1)].
+
 Definition check (c : case) : verdict :=
-  let '(ok1, g1, cks) := agree (init (c_ids c) (c_tso c) (c_reqs c)) None (c_steps c) in
+  let failing := fun t => nth t (c_fail c) false in
+  let '(ok1, g1, cks) := agree failing (init (c_ids c) (c_tso c) (c_reqs c)) None (c_steps c) in
   let k := c_crash c in
   let ok2 :=
-    match tstep true g1 (Crash (k_ids k) (k_tso k) (k_reqs k)) with
+    match tstep true (fun _ => false) g1 (Crash (k_ids k) (k_tso k) (k_reqs k)) with
     | None => false
     | Some g2 =>
         (g_ids g2 =? k_ids0 k) && (g_tso g2 =? k_tso0 k) &&
@@ -128,9 +150,11 @@ Definition check (c : case) : verdict :=
         ok && (g_ck_id g3 =? k_cid k) && (g_ck_ts g3 =? k_cts k)
     end in
   let tr := map (ostep_of (c_reqs c)) (c_steps c) in
-  mk_verdict (negb (ok1 && ok2 && forallb (image_model_ok cks) (c_images c)))
+  let bm := match c_boot c with Some b => boot_model_ok b | None => true end in
+  let bs := match c_boot c with Some b => boot_spec_ok b | None => true end in
+  mk_verdict (negb (ok1 && ok2 && forallb (image_model_ok cks) (c_images c) && bm))
              (negb (trace_ok_b [] tr && restart_ok_b (seen_after [] tr) (zip_iv (k_reqs k) (k_firsts k)) &&
-                    forallb (image_spec_ok tr) (c_images c)))
+                    forallb (image_spec_ok tr) (c_images c) && bs))
              0.
 
 Definition R (k c : N) : req := {| r_kind := if k =? 0 then KId else KTs; r_count := c |}.
@@ -142,4 +166,14 @@ Definition Im (k id0 ts0 : N) : nat * N * N := (N.to_nat k, id0, ts0).
 Definition Cr (a b : N) (reqs : list req) (i0 t0 : N) (firsts : list N) (cid cts : N) : crash :=
   {| k_ids := a; k_tso := b; k_reqs := reqs; k_ids0 := i0; k_tso0 := t0; k_firsts := firsts; k_cid := cid; k_cts := cts |}.
 Definition Cs (a b : N) (reqs : list req) (steps : list step) (ims : list (nat * N * N)) (k : crash) : case :=
-  {| c_ids := a; c_tso := b; c_reqs := reqs; c_steps := steps; c_images := ims; c_crash := k |}.
+  {| c_ids := a; c_tso := b; c_reqs := reqs; c_fail := []; c_steps := steps; c_boot := None; c_images := ims; c_crash := k |}.
+(** [Cf]: like [Cs], with the list of requests whose checkpoint write is made to fail *)
+Definition Cf (a b : N) (reqs : list req) (fails : list bool) (steps : list step) (ims : list (nat * N * N)) (k : crash) : case :=
+  {| c_ids := a; c_tso := b; c_reqs := reqs; c_fail := fails; c_steps := steps; c_boot := None; c_images := ims; c_crash := k |}.
+
+Definition Rv (k first count : N) : iv := (if k =? 0 then KId else KTs, first, count).
+Definition CsBoot (seen : list iv) (cid cts fid fts sid sts first_id first_ts : N) : case :=
+  {| c_ids := 1; c_tso := 1; c_reqs := []; c_fail := []; c_steps := [];
+     c_boot := Some {| b_seen := seen; b_cid := cid; b_cts := cts; b_fid := fid; b_fts := fts;
+                       b_sid := sid; b_sts := sts; b_first_id := first_id; b_first_ts := first_ts |};
+     c_images := []; c_crash := Cr 1 1 [] 0 0 [] 0 0 |}.
